@@ -2,12 +2,48 @@
 
 package actionlint
 
+import "strings"
+
 func verifC10NativeMulti(lab string, ord []int) {}
 
 func verifC14NativeActionDir() {}
-func verifC14Root() string      { return "/r" }
+func verifC14Root() string     { return "/r" }
 
 func verifC02NativeJobOrder(src string) {}
 
 func verifC10NativeFindProject(gs, ws, gr, wr int, want string) {}
-func verifC02NativeFormat() {}
+func verifC02NativeFormat()                                     {}
+
+// verifPrintedLines: the lines PrettyPrint writes for the diagnostics (no
+// source, i.e. what -oneline prints), with colours on or off. The engine's
+// fmt / fatih/color models hand over the written pieces; a line break can only
+// be inside a piece that the caller keeps free of symbolic line breaks.
+func verifPrintedLines(errs []*Error, colour bool) []string {
+	verifColorOutput(colour)
+	verifCaptureOutput(true)
+	for _, e := range errs {
+		e.PrettyPrint(nil, nil)
+	}
+	parts := verifCapturedParts()
+	verifCaptureOutput(false)
+	verifColorOutput(false)
+	var lines []string
+	cur := ""
+	for _, p := range parts {
+		for {
+			k := strings.IndexByte(p, '\n')
+			if k < 0 {
+				break
+			}
+			lines = append(lines, cur+p[:k])
+			cur, p = "", p[k+1:]
+		}
+		cur += p
+	}
+	if cur != "" {
+		lines = append(lines, cur)
+	}
+	return lines
+}
+func verifC02NativeSharedDefect() {}
+func verifC02NativeRepeat(wf string) {}
